@@ -217,7 +217,7 @@ func runC19(c *core.Ctx) {
 	if c.Mode == "plain" {
 		nCfg = c.Pick(40, 2500)
 	}
-	typeIDs := []int{0, 2, 6, 11, 12} // int8 int32 uint16 float32 float64
+	typeIDs := []int{5, 0, 2, 6, 11, 12} // uint8 int8 int32 uint16 float32 float64
 	defer runtime.GOMAXPROCS(runtime.GOMAXPROCS(0))
 	for ci := 0; ci < nCfg; ci++ {
 		t := dyn.Types[typeIDs[(ci+c.Batch)%len(typeIDs)]]
@@ -300,9 +300,9 @@ func runC19(c *core.Ctx) {
 			shared := mk()
 			seqA := mk() // the sequential reference runs on a separate, identical buffer: the shared one stays untouched ("cold") until the goroutines start
 			want := make([]uint64, R)
-			for g := 0; g < R; g++ {
-				want[g] = e.readerWork(seqA, frames, core.NewRand(c.Seed, core.HashStr(caseID), uint64(g)), nOps, nil)
-			}
+			// the reference is computed AFTER the concurrent run (see below), so
+			// that whatever the library initialises lazily on first use - per
+			// buffer or per process - is first touched by the concurrent readers
 			got := make([]uint64, R)
 			var wg sync.WaitGroup
 			start := make(chan struct{})
@@ -317,6 +317,9 @@ func runC19(c *core.Ctx) {
 			}
 			close(start)
 			wg.Wait()
+			for g := 0; g < R; g++ {
+				want[g] = e.readerWork(seqA, frames, core.NewRand(c.Seed, core.HashStr(caseID), uint64(g)), nOps, nil)
+			}
 			for g := 0; g < R; g++ {
 				c.Eval(1)
 				c.Distinct(core.NewHash().Str(caseID).Str("A").Int(g).Sum())
